@@ -6,7 +6,17 @@
 
 #include <tao/pegtl.hpp>
 #include <tao/pegtl/contrib/check_bytes.hpp>
+#include <tao/pegtl/contrib/abnf.hpp>
+#include <tao/pegtl/contrib/http.hpp>
+#include <tao/pegtl/contrib/if_then.hpp>
 #include <tao/pegtl/contrib/integer.hpp>
+#include <tao/pegtl/contrib/iri.hpp>
+#include <tao/pegtl/contrib/json.hpp>
+#include <tao/pegtl/contrib/json_pointer.hpp>
+#include <tao/pegtl/contrib/predicates.hpp>
+#include <tao/pegtl/contrib/rep_string.hpp>
+#include <tao/pegtl/contrib/separated_seq.hpp>
+#include <tao/pegtl/contrib/uri.hpp>
 #include <tao/pegtl/contrib/limit_bytes.hpp>
 #include <tao/pegtl/contrib/limit_depth.hpp>
 #include <tao/pegtl/contrib/parse_tree.hpp>
